@@ -5,13 +5,21 @@ S1  TLC checks specs/C08/OptimalAlign.tla: for every input of the bounded domain
     has the score of the optimum *by definition* (maximum of the documented score over all
     candidate alignments), its trace-backs are optimal candidates, complete in the end-to-end
     modes and minimal in local mode.
+    specs/C08/MatrixForms.tla states what "the substitution matrix" of the property is: the
+    scores as the caller specifies them in one of the documented construction forms (ndarray,
+    transposed ndarray, dictionary of symbol pairings, text / database name); S1 checks that
+    every form denotes the same table.
 S2  every input enumerated by TLC is executed against the real align_optimal (three values
-    of max_number, rotating alphabet sizes / code dtypes); the reported score is compared
+    of max_number, rotating construction forms, ndarray realisations, alphabet relations,
+    symbol kinds, alphabet sizes / code dtypes: COMBOS); the reported score is compared
     with TLC's optimum, and everything returned is validated by TLC (specs/C08/Trace.tla:
-    validity, end-to-end, recomputed score, distinctness, count, align.score()).
+    the scoring table is re-derived from the recorded source handed to the constructor, never
+    from the constructed object; validity, end-to-end, recomputed score, distinctness, count,
+    align.score()).
 S3  seeded random inputs beyond the exhaustive bounds (alphabets <= 5, lengths <= 12,
-    scores -5..5, all penalty shapes, refusals) are recorded and validated by TLC, which
-    recomputes the optimum with the same operators.
+    scores -5..5, all penalty shapes, every construction form incl. database names over
+    sub-alphabets, refusals) are recorded and validated by TLC, which recomputes the optimum
+    with the same operators.
 """
 
 from __future__ import annotations
@@ -25,8 +33,8 @@ PROPERTY = "C08"
 
 MANIFEST = {
     "technique": "TLA+ specification of the alignment scoring model, the candidate alignments and the dynamic programmes of align_optimal (specs/lib/PairAlign.tla, specs/C08) model-checked by TLC (DP = optimum by definition on all bounded inputs); every TLC-enumerated input executed against the real align_optimal; recorded calls on larger random inputs re-computed by TLC",
-    "level_text": "TLC enumerates every pair of sequences over a 2-letter alphabet up to length 3 (thorough: 4, and a 3-letter alphabet up to length 3) with six substitution matrices (identity, all-zero, negative-only, asymmetric, rewarded mismatch, steep), linear and affine penalties including 0 and open weaker than extend, in global, semi-global and local mode, and checks that the code-shaped linear and three-table affine recurrences with their trace-back reach exactly the maximum of the documented score over all candidate alignments (affine: without abutting gaps), that every trace-back is an optimal valid alignment, that end-to-end modes return all optima and local mode only minimal ones. Every enumerated input is then run through the real align_optimal with max_number 1, 2 and 1000 under rotating alphabet sizes (uint8/uint16/uint32 codes, different alphabets per sequence); TLC validates every returned trace (contiguous, order preserving, end-to-end unless local, recomputed score = reported = optimum, distinct, count <= max_number, align.score() agrees). Random inputs with up to 5 symbols and length 12 are recorded and re-computed by TLC.",
-    "level_note": "Bounded: the optimum by definition is enumerated only up to length 3 (4 in the thorough tier); beyond that the expected score is the specification's own dynamic programme, proven equal to the definition on the bounded domain only. int32 overflow for huge scores / penalties and 64-bit symbol codes are not modelled (scores and penalties are kept within -5..5 / -6..0). Completeness of the returned list (all optima) is a diagnostic only, the property does not promise it. Trusted: TLC, the dump parser, numpy, the projection Alignment.trace/score -> lists. Cython is unavailable: defects in pairwise.pyx / tracetable.pyx can only be recorded as known findings.",
+    "level_text": "TLC enumerates every pair of sequences over a 2-letter alphabet up to length 3 (thorough: 4, and a 3-letter alphabet up to length 3) with six substitution matrices (identity, all-zero, negative-only, asymmetric, rewarded mismatch, steep), linear and affine penalties including 0 and open weaker than extend, in global, semi-global and local mode, and checks that the code-shaped linear and three-table affine recurrences with their trace-back reach exactly the maximum of the documented score over all candidate alignments (affine: without abutting gaps), that every trace-back is an optimal valid alignment, that end-to-end modes return all optima and local mode only minimal ones. The substitution matrix of the property is the matrix as the caller specifies it (MatrixForms.tla: ndarray, transposed ndarray, dictionary of symbol pairings, text / database file; TLC checks that all forms denote the same table). Every enumerated input is then run through the real align_optimal with max_number 1, 2 and 1000 under rotating construction forms (ndarray of int8..int64, C / Fortran / strided / negative-stride / read-only memory, matrix.transpose(), dictionaries with python / numpy values and additional pairings, texts with permuted lines and columns), alphabet relations (same object, equal, permuted, overlapping, disjoint), symbol kinds and alphabet sizes (uint8/uint16/uint32 codes, different alphabets per sequence); TLC re-derives the scoring table from the recorded source and validates every returned trace (contiguous, order preserving, end-to-end unless local, recomputed score = reported = optimum, distinct, count <= max_number, align.score() agrees). Random inputs with up to 5 symbols and length 12 under random construction forms, and sequences over sub-alphabets of the database matrices constructed by name, are recorded and re-computed by TLC.",
+    "level_note": "Bounded: the optimum by definition is enumerated only up to length 3 (4 in the thorough tier); beyond that the expected score is the specification's own dynamic programme, proven equal to the definition on the bounded domain only. int32 overflow for huge scores / penalties and 64-bit symbol codes are not modelled (scores and penalties are kept within -5..5 / -6..0; database matrices within -40..40 / -12..0). Dictionary and text sources only over alphabets of at most 7 symbols; the text layout (comments, blank lines, indentation, column width) is varied only lightly (specs/X07 covers the parser). Completeness of the returned list (all optima) is a diagnostic only, the property does not promise it. Trusted: TLC, the dump parser, numpy, the projection Alignment.trace/score -> lists. Cython is unavailable: defects in pairwise.pyx / tracetable.pyx can only be recorded as known findings.",
 }
 
 MAXNS = (1, 2, 1000)
@@ -595,7 +603,9 @@ def run(ctx):
     quick = ctx.quick
     ctx.assumptions += [
         "Dom_Gap: penalties <= 0 (positive penalties / max_number < 1 are modelled as the outcome Rejected)",
-        "scores within -5..5 and penalties within -6..0: int32 overflow is outside the model",
+        "scores within -5..5 and penalties within -6..0 (database matrices: Dom_DbScores, files with one-character symbols and scores within -40..40, penalties within -12..0): int32 overflow is outside the model",
+        "Dom_Src: well-formed matrix sources only (rectangular ndarray of the alphabets' shape and an integer dtype, complete dictionary with unique keys, text with a header line, distinct labels and one number per column); dictionaries and texts over alphabets of at most 7 symbols; a missing pairing (documented KeyError) is not exercised here (specs/X07)",
+        "the dtype, memory order, strides and writability of an ndarray, the type of dictionary values, the kind of the symbols and the layout of a text are realisations of the same source (not inputs of the specification)",
         "exhaustive model: 2-letter alphabet, length <= 3 (thorough: <= 4; 3 letters, length <= 3); larger inputs only through recorded calls, where the expected optimum is the specification's dynamic programme",
         "symbol codes up to uint32 (alphabets of 300 / 70000 symbols); 64-bit codes are not reachable",
         "trusted: TLC, the dump parser (cross-checked against the general TLA+ value parser), numpy, the projection Alignment.trace/score -> lists",
@@ -734,7 +744,9 @@ def run(ctx):
     for e in sev[:2]:
         ctx.sample({"s3_event": {k: e[k] for k in _KEEP}})
     # ---- binding self-test -------------------------------------------------------------
-    good = [e for e in sev if e["oc"] == "ok" and e["traces"] and len(e["traces"][0]) >= 2][:12]
+    flagged3 = {ix for ix, *_ in mms}
+    clean = [e for ix, e in enumerate(sev) if ix not in flagged3]
+    good = [e for e in clean if e["oc"] == "ok" and e["traces"] and len(e["traces"][0]) >= 2][:12]
     bad = []
     for n, e in enumerate(good):
         e = json.loads(json.dumps(e))
@@ -748,6 +760,22 @@ def run(ctx):
         else:
             e["traces"][0][0], e["traces"][0][1] = e["traces"][0][1], e["traces"][0][0]   # order broken
         bad.append(e)
+    # the caller's source is what TLC judges against: one event per form whose source is changed
+    # (every score one higher; the recorded optimal alignment has a pair column, so the optimum moves)
+    shifted = {}
+    for e in clean:
+        form = e["src"]["form"]
+        if (form not in shifted and e["oc"] == "ok" and e["traces"]
+                and all(any(a >= 0 and b >= 0 for a, b in t) for t in e["traces"])):
+            e = json.loads(json.dumps(e))
+            src = e["src"]
+            src["tab"] = [[v + 1 for v in row] for row in src["tab"]]
+            src["dict"] = [[x, y, v + 1] for x, y, v in src["dict"]]
+            src["rows"] = [{"l": r["l"], "v": [v + 1 for v in r["v"]]} for r in src["rows"]]
+            shifted[form] = e
+    if set(shifted) != {"array", "transposed", "dict", "text"}:
+        vacuity(ctx, f"binding self-test: no recorded event to corrupt for some form: {sorted(shifted)}")
+    bad += [shifted[k] for k in sorted(shifted)]
     if len(bad) < 4:
         vacuity(ctx, "binding self-test: not enough recorded events to corrupt")
         return
